@@ -834,7 +834,7 @@ where
         return false;
     }
     // (3) on the long-lived tree too, now and then (it must come back to the same state)
-    if rng.gen_bool(0.15) {
+    if rng.gen_bool(0.15) && s.base.checked_add(n + 1).is_some() {
         let lf2 = leaf(rng, V::N_EXT, s.base + n + 1, s.cap_n);
         let before = a.root.clone();
         let len_before = s.live.len();
@@ -947,7 +947,12 @@ where
         _ => rng.r#gen(),
     };
     let cap_n = (max_leaves + 2).next_power_of_two();
+    // some sequences end exactly at the top of the height range: the last possible leaf has height
+    // u64::MAX, and the tree can hold `top_len` leaves
+    let top_len: Option<u64> = if jump.is_none() && rng.gen_range(0..8) == 0 { Some(rng.gen_range(2..=max_leaves.min(48))) } else { None };
+    let max_leaves = top_len.unwrap_or(max_leaves);
     let base: u64 = match rng.gen_range(0..7) {
+        _ if top_len.is_some() => u64::MAX - (top_len.unwrap() - 1),
         0 => 0,
         1 => 1,
         2 => rng.gen_range(0..3_000_000),
@@ -992,6 +997,9 @@ where
     }
     c.r.count("sequences", 1);
     c.r.count(&format!("sequences_{}", V::NAME), 1);
+    if top_len.is_some() {
+        c.r.count("sequences_ending_at_height_u64_max", 1);
+    }
     // shape of the walk
     let shape = rng.gen_range(0..5);
     let target = match shape {
@@ -1002,6 +1010,7 @@ where
         _ => rng.gen_range(2..=max_leaves),
     }
     .min(max_leaves);
+    let target = if top_len.is_some() { max_leaves } else { target };
     let mut ops = 0u64;
     let mut phase = if jump.is_some() { 1 } else { 0 }; // 0 grow to target, 1 random walk, 2 shrink to 1
     let walk_ops = if jump.is_some() { rng.gen_range(8..24) } else { rng.gen_range(10..200) };
